@@ -116,7 +116,7 @@ Theorem C01_selection_rule_is_adjoint :
   forall (K : Type) (k0 k1 : K) (kadd kmul ksub : K -> K -> K) (kopp : K -> K),
     ring_theory k0 k1 kadd kmul ksub kopp eq ->
     forall n sel g v,
-      Forall (Select.in_bounds K n) sel -> length g = length sel -> length v = n ->
+      List.Forall (Select.in_bounds K n) sel -> length g = length sel -> length v = n ->
       dot K k0 kadd kmul (Select.sscatter K k0 kadd kmul n sel g) v = dot K k0 kadd kmul g (Select.sgather K k0 kmul sel v)
       /\ length (Select.sscatter K k0 kadd kmul n sel g) = n
       /\ length (Select.sgather K k0 kmul sel v) = length sel.
